@@ -69,9 +69,15 @@ impl PropertyValue {
             30 => {
                 let length = reader.read_u32::<LittleEndian>()?;
                 let length = if length == 0 { 0 } else { length - 1 };
-                let mut bytes: Vec<u8> = Vec::with_capacity(length as usize);
-                for _ in 0..length {
-                    bytes.push(reader.read_u8()?);
+                // Don't trust the length for the allocation; read what is
+                // actually there.
+                let mut bytes = Vec::<u8>::new();
+                reader
+                    .by_ref()
+                    .take(length as u64)
+                    .read_to_end(&mut bytes)?;
+                if bytes.len() != length as usize {
+                    return Err(io::ErrorKind::UnexpectedEof.into());
                 }
                 if reader.read_u8()? != 0 {
                     invalid_data!("Property set string not null-terminated");
